@@ -10,6 +10,7 @@ import MM.Model.C01
     del I|R <k> <mutation>     -> acc <msg>|empty <4 counters> | rej <4 counters>
          mutation: none | flip <i> | ctr <v> | pfx <v> | trunc <n> | ext <n>
     raw I|R <pfx> <ctr> <len>  -> rej <4 counters>           forged frame (garbage body)
+    race I|R <k> <G>           -> race <0|1> <msg|empty|-> <4 counters>   G concurrent deliveries of one ciphertext
 
   `spec` mode evaluates the statement of C01 on the implementation's own answers.
 -/
@@ -82,6 +83,21 @@ def stepLine (e : ESt) (line : String) : ESt × String :=
     match parseEnd x, pfx.toNat?, c.toNat?, len.toNat? with
     | some atI, some pfx, some c, some len => deliver e atI ⟨pfx, c, .junk, len⟩
     | _, _, _, _ => (e, "bad-op")
+  | ["race", x, k, g] =>
+    -- Decrypt is atomic (whole call under the mutex): G concurrent deliveries of the same ciphertext
+    -- are G deliveries in some order; the first decides, the others are replays and change nothing.
+    match parseEnd x, k.toNat?, g.toNat? with
+    | some atI, some k, some g =>
+      if g < 1 ∨ g > 256 then (e, "bad-op") else
+      match e.pool[k]? with
+      | some p =>
+        let (st', r) := step e.st (if atI then .delI p else .delR p)
+        let e' := { e with st := st' }
+        match r with
+        | some (.acc _ m) => (e', s!"race 1 {if p.len = overhead then "empty" else toString m} {ctrs st'}")
+        | _ => (e', s!"race 0 - {ctrs st'}")
+      | none => (e, "bad-op")
+    | _, _, _ => (e, "bad-op")
   | _ => (e, "bad-op")
 
 /-! ### executable statement of C01 over the implementation's answers -/
@@ -200,6 +216,16 @@ def specLine (s : SSt) (line : String) : SSt × String :=
     | ["raw", x, pfx, c, _] =>
       match parseEnd x, pfx.toNat?, c.toNat? with
       | some atI, some pfx, some c => specDel s atI (some (pfx, c, false)) none o
+      | _, _, _ => (s, "ok")
+    | ["race", x, k, _] =>
+      match parseEnd x, k.toNat?, o with
+      | some atI, some k, "race" :: n :: m :: rest =>
+        (match s.pool[k]?, n.toNat? with
+         | some p, some n =>
+           if n > 1 then ({ s with ctrs := parse4 rest }, "fail replay-accepted concurrently")
+           else if n = 1 then specDel s atI (some (p.pfx, p.ctr, true)) (some p) ("acc" :: m :: rest)
+           else specDel s atI (some (p.pfx, p.ctr, true)) (some p) ("rej" :: rest)
+         | _, _ => (s, "ok"))
       | _, _, _ => (s, "ok")
     | _ => (s, "ok")
   | _ => (s, "bad-op")
